@@ -66,6 +66,9 @@ func renderClEntry(e ClEntry) (header, body, trailer string) {
 		opts = append(opts, k+"="+e.Opts[k])
 	}
 	header = fmt.Sprintf("%s (%s) %s; %s\n", e.Source, e.Version.canonical(), strings.Join(e.Dists, " "), strings.Join(opts, ", "))
+	if len(opts) == 0 {
+		header = fmt.Sprintf("%s (%s) %s;\n", e.Source, e.Version.canonical(), strings.Join(e.Dists, " "))
+	}
 	layout := "Mon, 02 Jan 2006 15:04:05 -0700"
 	switch e.DayStyle {
 	case "1":
@@ -108,7 +111,7 @@ func genClEntry(t *rapid.T, first bool) ClEntry {
 		e.Dists = append(e.Dists, rapid.SampledFrom([]string{"unstable", "experimental", "UNRELEASED", "bookworm-security", "stable-proposed-updates", "jammy"}).Draw(t, "dist"))
 	}
 	pool := [][2]string{{"urgency", "low"}, {"urgency", "medium"}, {"urgency", "high"}, {"binary-only", "yes"}, {"xb-foo", "bar-1"}, {"urgency", "critical"}}
-	no := rapid.SampledFrom([]int{1, 1, 2, 3}).Draw(t, "no")
+	no := rapid.SampledFrom([]int{1, 1, 2, 3, 0}).Draw(t, "no") // deb-changelog(5): zero or more key=value items
 	for i := 0; i < no; i++ {
 		kv := rapid.SampledFrom(pool).Draw(t, "opt")
 		if _, dup := e.Opts[kv[0]]; dup {
@@ -142,6 +145,10 @@ func genClEntry(t *rapid.T, first bool) ClEntry {
 	body.WriteString(strings.Repeat("\n", rapid.SampledFrom([]int{1, 1, 1, 0, 2}).Draw(t, "blankBeforeTrailer")))
 	e.Body = body.String()
 	e.Who = rapid.SampledFrom(personNames).Draw(t, "who")
+	if rapid.IntRange(0, 7).Draw(t, "whoDouble") == 0 {
+		// two blanks inside the name, or in front of the address: the date begins after ">  "
+		e.Who = rapid.SampledFrom([]string{"John  Doe <j@d.org>", "Jane Roe  <jane@roe.example>", "A  B  C <abc@x.y>"}).Draw(t, "whoD")
+	}
 	e.Unix = int64(rapid.Int64Range(0, 4102444800).Draw(t, "unix"))
 	e.OffMin = rapid.SampledFrom([]int{0, 0, 60, 120, -300, -420, 330, 345, 570, -720, 840, -210, 1}).Draw(t, "off")
 	if !first {
@@ -152,7 +159,7 @@ func genClEntry(t *rapid.T, first bool) ClEntry {
 	if e.Gap > 0 && rapid.IntRange(0, 5).Draw(t, "gapws") == 0 {
 		e.GapLines = []string{}
 		for i := 0; i < e.Gap; i++ {
-			e.GapLines = append(e.GapLines, rapid.SampledFrom([]string{"", " ", "  ", "\t", " \t", "# a comment line", "#", "# vim: set ft=debchangelog:"}).Draw(t, "gapl"))
+			e.GapLines = append(e.GapLines, rapid.SampledFrom([]string{"", " ", "  ", "\t", " \t", "# a comment line", "#", "# vim: set ft=debchangelog:", "/* an old-style comment */", "$Id: changelog,v 1.2 2006/01/02 15:04:05 joe Exp $"}).Draw(t, "gapl"))
 		}
 	}
 	e.DayStyle = rapid.SampledFrom([]string{"", "", "", "1", "_", ",", ",,"}).Draw(t, "daystyle")
@@ -230,7 +237,7 @@ func entriesMatch(got changelog.ChangelogEntries, want []ClEntry) error {
 
 var specC17Model = Register(&Spec[ClDoc]{
 	Prop: "C17", Name: "model",
-	Rule: "changelogs rendered from an entry-list model: 1..6 entries; source [a-z0-9][a-z0-9+.-]+, Policy-grammar version, 1..3 distributions, 1..3 key=value options, body of blank lines after the header, '  * item', deeper continuation, '  [ Name ]', blank lines, lines of blanks only, lines ending in blanks or a tab, and lines containing ' -- ', ';', '(' in the middle, blank lines before the trailer; maintainer 'Name <mail>'; timestamp from a generated instant and zone offset (-12:00..+14:00 incl. half/quarter hours and +00:01) rendered like date -R, or with the day's leading zero left out or replaced by a blank (Policy allows a day 32); 0..3 blank lines between entries, in 1/6 of the cases carrying blanks or a tab (dpkg reads ^\\s*$ as blank) or being '#' comment lines, which the format says are ignored; final newline present or absent; trailing blank lines, in a quarter of the cases followed by the two-line '# Older entries have been removed ...' footer of a trimmed changelog. Oracle: changelog.Parse returns one entry per block in order with Source, Version (parts), Target (distributions joined by one blank), Arguments, Changelog == exact bytes between header and trailer line, ChangedBy, When equal as instant AND zone offset; ParseOne returns the first; parsing the same text again right after three failing parses (document cut inside a body, trailer without date) gives the same entries. Non-trivial: >= 2 entries, >= 2 options, or no final newline; distinct by text.",
+	Rule: "changelogs rendered from an entry-list model: 1..6 entries; source [a-z0-9][a-z0-9+.-]+, Policy-grammar version, 1..3 distributions, 0..3 key=value options, body of blank lines after the header, '  * item', deeper continuation, '  [ Name ]', blank lines, lines of blanks only, lines ending in blanks or a tab, and lines containing ' -- ', ';', '(' in the middle, blank lines before the trailer; maintainer 'Name <mail>'; timestamp from a generated instant and zone offset (-12:00..+14:00 incl. half/quarter hours and +00:01) rendered like date -R, or with the day's leading zero left out or replaced by a blank (Policy allows a one-digit day); 0..3 blank lines between entries, in 1/6 of the cases carrying blanks or a tab (dpkg reads ^\\s*$ as blank) or being '#', '/* */' or '$Keyword: $' lines, which the format says are ignored; final newline present or absent; trailing blank lines, in a quarter of the cases followed by the two-line '# Older entries have been removed ...' footer of a trimmed changelog. Oracle: changelog.Parse returns one entry per block in order with Source, Version (parts), Target (distributions joined by one blank), Arguments, Changelog == exact bytes between header and trailer line, ChangedBy, When equal as instant AND zone offset; ParseOne returns the first; parsing the same text again right after three failing parses (document cut inside a body, trailer without date) gives the same entries. Non-trivial: >= 2 entries, >= 2 options, or no final newline; distinct by text.",
 	Check: func(d ClDoc, r *Recorder) error {
 		text := renderClDoc(d)
 		nt := len(d.Entries) >= 2 || !d.FinalNewline
@@ -389,7 +396,9 @@ func checkClPrefix(c ClPrefix, r *Recorder) error {
 	rest := prefix[pos:]
 	inside := false // does anything but blank lines and '#' comment lines follow the last complete entry?
 	for _, l := range strings.Split(rest, "\n") {
-		if t := strings.TrimSpace(l); t != "" && !strings.HasPrefix(l, "#") {
+		t := strings.Trim(l, "\n\r\t ")
+		ignored := strings.HasPrefix(l, "#") || (strings.HasPrefix(l, "/*") && strings.HasSuffix(t, "*/")) || (strings.HasPrefix(l, "$") && strings.HasSuffix(t, "$") && strings.Contains(t, ":"))
+		if t != "" && !ignored {
 			inside = true
 		}
 	}
